@@ -49,14 +49,14 @@ func genC14(maxClients int, long bool) func(t *rapid.T) C14Batch {
 }
 
 type c14Env struct {
-	front  *kit.UDPFront
-	met    *kit.RecService
-	tgt    *kit.UDPPeer // non-DNS target
-	dns    *kit.UDPPeer // 127.0.0.53:53
-	dns2   *kit.UDPPeer // another port-53 address (stranger)
-	key    *kit.Key
-	tau    time.Duration
-	dnsMu  sync.Mutex
+	front   *kit.UDPFront
+	met     *kit.RecService
+	tgt     *kit.UDPPeer // non-DNS target
+	dns     *kit.UDPPeer // 127.0.0.53:53
+	dns2    *kit.UDPPeer // another port-53 address (stranger)
+	key     *kit.Key
+	tau     time.Duration
+	dnsMu   sync.Mutex
 	fromDNS map[string]chan kit.Datagram // demux of datagrams arriving at the DNS socket by payload tag
 }
 
